@@ -27,6 +27,7 @@ pub struct GenCfg {
     pub panics: bool,
     pub extract_cmds: bool,
     pub faults: bool,
+    pub big_costs: bool,
 }
 
 impl Default for GenCfg {
@@ -52,6 +53,7 @@ impl Default for GenCfg {
             panics: false,
             extract_cmds: false,
             faults: false,
+            big_costs: false,
         }
     }
 }
@@ -97,8 +99,17 @@ impl<'a, 'b> Gen<'a, 'b> {
                 sig.conts.push(ContDecl { name: format!("K{i}"), kind, elem });
             }
         }
+        let big = self.cfg.big_costs;
         let cost = |s: &mut Src, on: bool| -> Option<i64> {
-            if on && s.chance(1, 2) { Some(*s.pick(&[0, 1, 2, 3, 5, 10])) } else { None }
+            if on && s.chance(1, 2) {
+                if big && s.chance(1, 4) {
+                    Some(*s.pick(&[i64::MAX, i64::MAX - 1, i64::MAX / 2, i64::MAX / 3 + 1]))
+                } else {
+                    Some(*s.pick(&[0, 1, 2, 3, 5, 10]))
+                }
+            } else {
+                None
+            }
         };
         // leaves
         for si in 0..sig.sorts.len() {
